@@ -47,6 +47,9 @@ def reps():
         Fraction(Fraction(P(A, B), P(B)), P(C)),
         Fraction(P(C), Fraction(P(A, B), P(B))),
         Fraction(Zero(), P(A)),
+        Product((P(A), P(A))),
+        Fraction(Product((P(A), P(A), P(B))), P(C)),
+        Fraction(P(A), Product((P(A), P(A), P(B)))),
         Q[A](B),
         Q[A, B](C),
         Q[C](A, B),
@@ -347,7 +350,7 @@ def run() -> int:
         "y0.mutate.chain.chain_expand / fraction_expand / bayes_expand; y0.mutate.contract.contract / recursive_contract; mutate.utils.Applier",
     ]
     rep.bounds = {
-        "operands": "52 representative operands (27 leaves incl. value-marked, interventional, population-tagged, One, Zero; products, sums, nested sums, fractions incl. nested and constant ones, Q-factors): all ordered pairs for * and /; all range sets over A,B,C (+X) for marginalize/conditional; every depth-2 fraction/sum of the C10 family for simplify; for contract (quick: every 3rd); every probability leaf with every ordering of its variables, and with every ordering that covers the children and only some (or none) of the parents, for chain_expand",
+        "operands": "55 representative operands (27 leaves incl. value-marked, interventional, population-tagged, One, Zero; products, sums, nested sums, fractions incl. nested and constant ones and ones with a repeated factor, Q-factors): all ordered pairs for * and /; all range sets over A,B,C (+X) for marginalize/conditional; every depth-2 fraction/sum of the C10 family for simplify; for contract (quick: every 3rd); every probability leaf with every ordering of its variables, and with every ordering that covers the children and only some (or none) of the parents, for chain_expand",
         "cross_world_operands": "7 joints and 7 conditionals that mix worlds (Y_x next to Y, Y_x next to Y_x', with a third variable): contract / recursive_contract / Fraction.simplify of joint over every sub-joint, chain/fraction/Bayes expansion with every ordering, marginalisation and Bayes expansion only where no name occurs twice (a Sum ranges over a name), * and / among them; decided over one free positive joint of the counterfactual variables (distinct counterfactual variables = distinct random variables, no structural axioms)",
         "distributions": "free positive joints per (population, intervention assignment), binary variables; Q-factors as uninterpreted positive functions; all value assignments",
         "PYTHONHASHSEED": hashseed(),
